@@ -306,11 +306,42 @@ Definition c04_pair (rf0 : nat) (prev : obs) (a b : event) (cur : obs) : bool :=
 Definition nopair (prev : obs) (a b : event) (cur : obs) : bool := true.
 
 (** ** running the oracles over a whole observed trace *)
+(** ** C07 (control half): a rebuilding replica is promoted only by a verify request that succeeds, and then
+    its chain agrees with the first RW replica's from the checkpoint upward (the whole chain when it has none)
+    and it carries that replica's revision counter *)
+Definition is_mode (l : list (addr * mode)) (a : addr) (m : mode) : bool :=
+  existsb (fun p => Nat.eqb (fst p) a && mode_eqb (snd p) m) l.
+
+Definition c07_step (rf0 : nat) (prev : obs) (e : event) (cur : obs) : bool :=
+  match e with
+  | Verify a _ =>
+      if is_mode (o_replicas prev) a WO && is_mode (o_replicas cur) a RW then
+        is_ack cur
+        && match rw_of (o_replicas prev) with
+           | r0 :: _ =>
+               match rep_of prev r0, rep_of prev a, rep_of cur a with
+               | Some pr, Some pa, Some ca =>
+                   Z.eqb (o_rev ca) (o_rev pr)
+                   && match (match o_cp pa with
+                             | None => Some (length (o_chain pr))
+                             | Some c => match index_of (o_chain pr) c 0 with Some i => Some (S i) | None => None end
+                             end) with
+                      | Some k => Nat.leb k (length (o_chain pa)) && lnat_eqb (firstn k (o_chain pr)) (firstn k (o_chain pa))
+                      | None => false
+                      end
+               | _, _, _ => true            (* a replica outside the observed range: no verdict *)
+               end
+           | [] => false
+           end
+      else true
+  | _ => true
+  end.
+
 Record verdict := mkverdict {
   v_diff : option (nat * nat);
   v_c02 : option nat; v_c03 : option nat; v_c04 : option nat; v_c05 : option nat;
   v_c09 : option nat; v_c13 : option nat; v_c18 : option nat;     (* first step at which the oracle fails *)
-  v_c01 : option nat; v_c16 : option nat
+  v_c01 : option nat; v_c16 : option nat; v_c07 : option nat
 }.
 
 Definition obs0 (rf0 n : nat) (w0 : world) : obs := observe n (init rf0 w0) ROk noeff.
@@ -353,7 +384,8 @@ Definition check_case (x : xcase) : verdict :=
     (walk_q (fun q => lift (c13_step rf0 q) (c13_pair rf0)) 0 o0 (c_events c) (c_obs c) (x_quiet x))
     (walk_q (fun q => lift (c18_step rf0 q) (fun prev a b cur => c18_step rf0 q prev (SetMode 0%nat WO) cur)) 0 o0 (c_events c) (c_obs c) (x_quiet x))
     (walk (lift (c01_step rf0) nopair) 0 o0 (c_events c) (c_obs c))
-    (walk (lift (c16_step rf0) nopair) 0 o0 (c_events c) (c_obs c)).
+    (walk (lift (c16_step rf0) nopair) 0 o0 (c_events c) (c_obs c))
+    (walk (lift (c07_step rf0) nopair) 0 o0 (c_events c) (c_obs c)).
 
 Definition on (o : option nat) : nat := match o with Some i => S i | None => 0%nat end.
 
@@ -364,7 +396,7 @@ Fixpoint bad_cases (i : nat) (cs : list xcase) : list (nat * (nat * nat) * list 
   | c :: t =>
       let v := check_case c in
       let fl := [on (v_c02 v); on (v_c03 v); on (v_c04 v); on (v_c05 v); on (v_c09 v); on (v_c13 v); on (v_c18 v);
-                 on (v_c01 v); on (v_c16 v)] in
+                 on (v_c01 v); on (v_c16 v); on (v_c07 v)] in
       let d := match v_diff v with Some d => d | None => (0, 0)%nat end in
       if Nat.eqb (fold_left Nat.add fl 0%nat) 0%nat && match v_diff v with None => true | _ => false end
       then bad_cases (S i) t
